@@ -255,7 +255,7 @@ def minbytes(x):
 
 
 def encode_boc(roots, order=None, magic='generic', has_idx=False, has_crc=False, has_cache_bits=False,
-               size=None, off_bytes=None, with_hashes=False, cache_bit_fn=None):
+               size=None, off_bytes=None, with_hashes=False, cache_bit_fn=None, forge=None):
     """Conforming encoder with every freedom exposed.  `order`: list of RC (parents first).  For the lean
     magics the single root must be order[0]."""
     order = order or topo_order(roots)
@@ -266,6 +266,8 @@ def encode_boc(roots, order=None, magic='generic', has_idx=False, has_crc=False,
         raise RefError('size width')
     wh = with_hashes if callable(with_hashes) else (lambda c: with_hashes)
     blobs = [c.serialize(index_of, size, wh(c)) for c in order]
+    if forge:      # NON-conforming on purpose: forge(i, cell, blob) -> blob, e.g. untrue stored hashes (used by negative tests only)
+        blobs = [forge(i, c, b) for i, (c, b) in enumerate(zip(order, blobs))]
     data = b''.join(blobs)
     ends, acc = [], 0
     for b in blobs:
